@@ -174,7 +174,7 @@ func tinyModels() map[string][]byte {
 
 func checkC18(c *hx.Checker) {
 	thorough := c.Tier == "thorough"
-	dir := "/repo/sample_models/onnx_models"
+	dir := hx.RepoDir() + "/sample_models/onnx_models"
 	seeds := map[string][]byte{}
 	for _, f := range []string{"mlp.onnx", "scaler.onnx", "gru.onnx", "mnist-8-opset13.onnx"} {
 		b, err := os.ReadFile(filepath.Join(dir, f))
